@@ -74,6 +74,8 @@ def ensure_repo_on_path() -> None:
 def find_def(qualname: str) -> Tuple[ModuleInfo, ast.AST]:
     """qualname = 'hypercorn.protocol.h2:StreamBuffer.pop'"""
     modname, local = qualname.split(":")
+    if not modname.startswith("hypercorn"):
+        raise KeyError(f"{qualname}: not a function of the repository (interface / model contract)")
     mi = module_info(modname)
     if local not in mi.defs:
         raise KeyError(f"{qualname}: no such function in {mi.path}")
@@ -142,3 +144,83 @@ def fields_assigned_outside_init(cls) -> Dict[str, List[str]]:
                     if fn_node.name != "__init__" or base is not t:
                         out.setdefault(base.attr, []).append(f"{fn_node.name}:{n.lineno}")
     return out
+
+
+def lock_discipline_violations(cls, lock_field: str, fields: List[str], calls=("cancel", "create_task", "start", "start_soon")) -> List[str]:
+    """syntactic check behind ClassContract.lock_protected: outside __init__, every store to
+    self.<field> and every call of a task-control method happens inside `async with self.<lock>`"""
+    mi = module_info(cls.__module__)
+    cnode = mi.classes[cls.__qualname__]
+    bad: List[str] = []
+
+    def is_lock_with(n) -> bool:
+        if not isinstance(n, (ast.AsyncWith, ast.With)):
+            return False
+        for it in n.items:
+            e = it.context_expr
+            if isinstance(e, ast.Attribute) and isinstance(e.value, ast.Name) and e.value.id == "self" and e.attr == lock_field:
+                return True
+        return False
+
+    def visit(n, locked, fname):
+        if is_lock_with(n):
+            locked = True
+        if not locked:
+            tgts = []
+            if isinstance(n, ast.Assign):
+                tgts = n.targets
+            elif isinstance(n, (ast.AugAssign, ast.AnnAssign)):
+                tgts = [n.target]
+            elif isinstance(n, ast.Delete):
+                tgts = n.targets
+            for t in tgts:
+                for x in ast.walk(t):
+                    if isinstance(x, ast.Attribute) and isinstance(x.value, ast.Name) and x.value.id == "self" and x.attr in fields:
+                        bad.append(f"{fname}:{n.lineno} stores self.{x.attr} outside the lock")
+            if isinstance(n, ast.Call) and isinstance(n.func, ast.Attribute) and n.func.attr in calls:
+                bad.append(f"{fname}:{n.lineno} calls .{n.func.attr}() outside the lock")
+        for c in ast.iter_child_nodes(n):
+            visit(c, locked, fname)
+
+    for fn_node in cnode.body:
+        if isinstance(fn_node, (ast.FunctionDef, ast.AsyncFunctionDef)) and fn_node.name != "__init__":
+            for st in fn_node.body:
+                visit(st, False, fn_node.name)
+    return bad
+
+
+def write_once_violations(cls, fields: List[str]) -> List[str]:
+    """syntactic check behind ClassContract.write_once: outside __init__ each field is stored at
+    exactly one program point of the class, and that point is not inside a loop"""
+    mi = module_info(cls.__module__)
+    cnode = mi.classes[cls.__qualname__]
+    sites: Dict[str, List[str]] = {f: [] for f in fields}
+
+    def visit(n, in_loop, fname):
+        tgts = []
+        if isinstance(n, ast.Assign):
+            tgts = n.targets
+        elif isinstance(n, ast.AugAssign):
+            tgts = [n.target]
+        elif isinstance(n, ast.AnnAssign) and n.value is not None:
+            tgts = [n.target]
+        elif isinstance(n, ast.Delete):
+            tgts = n.targets
+        elif isinstance(n, (ast.With, ast.AsyncWith)):
+            tgts = [it.optional_vars for it in n.items if it.optional_vars is not None]
+        for t in tgts:
+            for x in ast.walk(t):
+                if isinstance(x, ast.Attribute) and isinstance(x.value, ast.Name) and x.value.id == "self" and x.attr in sites:
+                    sites[x.attr].append(f"{fname}:{n.lineno}" + (" (in a loop)" if in_loop else ""))
+        for c in ast.iter_child_nodes(n):
+            visit(c, in_loop or isinstance(n, (ast.For, ast.AsyncFor, ast.While)), fname)
+
+    for fn_node in cnode.body:
+        if isinstance(fn_node, (ast.FunctionDef, ast.AsyncFunctionDef)) and fn_node.name != "__init__":
+            for st in fn_node.body:
+                visit(st, False, fn_node.name)
+    bad = []
+    for f, ss in sites.items():
+        if len(ss) > 1 or any("loop" in x for x in ss):
+            bad.append(f"self.{f} stored at {', '.join(ss)}")
+    return bad
